@@ -5,14 +5,19 @@
    states; no reachable state deadlocks a replica (timer always enabled, retransmits); a
    verifying new-view in the soup brings every running honest node to its view within one
    round; at the end of every round every node that made no view progress has retransmitted.
-   NOT PROVED (stated as Definitions at the end): alignment of all honest nodes, commit in an
-   aligned view with an honest leader, and the bounded-progress theorems. *)
+   Also proved: no honest node stops during a synchronous suffix with headroom; catch-up within
+   three rounds (b); and (d) in the form that holds of the model: a view in which all honest
+   nodes wait with the leader's single proposal on the network is decided within two rounds
+   (every honest node stores the block and enters the next view).
+   NOT PROVED (stated as Definitions at the end): alignment of all honest nodes (c) and the
+   bounded-progress theorems (e), C06_full. *)
 From Coq Require Import ZArith List Bool Lia.
 From EC Require Import Lib.Outcome Lib.ListW Model.Msgs Model.Replica Model.ReplicaRun Model.Protocol
   Model.ProtocolSync Proofs.ReplicaLive Proofs.ProtocolRefinesExec Proofs.ProtocolRefinesExample
   Proofs.ProtocolLive Proofs.ProtocolLiveInv Proofs.ProtocolLiveExample
-  Proofs.ProtocolLiveCatch Proofs.ProtocolLiveNoStop Proofs.ProtocolLiveGoals.
-From EC Require Proofs.ReplicaCaches Proofs.ReplicaJustified.
+  Proofs.ProtocolLiveCatch Proofs.ProtocolLiveNoStop Proofs.ProtocolLiveCommitStep
+  Proofs.ProtocolLiveCommitLock Proofs.ProtocolLiveCommit Proofs.ProtocolLiveGoals.
+From EC Require Proofs.ReplicaCaches Proofs.ReplicaJustified Proofs.ProtocolRefinesStep.
 Import ListNotations.
 Open Scope Z_scope.
 
@@ -279,6 +284,100 @@ Theorem C06G_aligned_view_commits_4_refuted : ~ C06_aligned_view_commits 4.
 Proof. exact aligned_view_commits_refuted. Qed.
 Print Assumptions C06G_aligned_view_commits_4_refuted.
 
+(* the first correction ("the leader of the aligned view has been notified") is false as well,
+   for three rounds: a proposal sent during a round in which nobody enters the view arrives
+   after the view timers of that round fired *)
+Theorem C06G_aligned_view_commits'_3_refuted : ~ C06_aligned_view_commits' 3.
+Proof. exact aligned_view_commits'_3_refuted. Qed.
+Print Assumptions C06G_aligned_view_commits'_3_refuted.
+
+(* (d) as it holds: every honest node waits in view V (phase Prepare, block store at number n),
+   and the one proposal for view V signed by its leader that is on the network proposes the
+   environment's payload for the new block n with a verifying justification.  Then within two
+   synchronous rounds every honest node has stored block n and entered a later view.  (No
+   assumption on the leader being honest is needed beyond its single proposal; H-FETCH is not
+   needed; nothing is assumed about messages of Byzantine validators on the network.) *)
+Theorem C06G_view_commits : forall P pay fetch, params_ok P -> env_ok P pay -> forall s V n,
+  preach P s -> headroom P s 4 -> 0 < V -> waiting P s V n -> proposal_on_network P pay s V n ->
+  forall k, honestb P k = true ->
+    up (sync_rounds P pay fetch 2 s) k /\ V < hview (sync_rounds P pay fetch 2 s) k /\
+    height s k < height (sync_rounds P pay fetch 2 s) k.
+Proof. exact view_commits_holds. Qed.
+Print Assumptions C06G_view_commits.
+
+Theorem C06G_waiting_unfold : forall P s V n,
+  waiting P s V n <->
+  (forall k, honestb P k = true ->
+     up s k /\ hview s k = V /\ r_phase (n_live (g_node s k)) = Prepare /\
+     r_store_next (n_live (g_node s k)) = n).
+Proof. exact (fun P s V n => iff_refl _). Qed.
+Print Assumptions C06G_waiting_unfold.
+
+Theorem C06G_proposal_on_network_unfold : forall P pay s V n,
+  proposal_on_network P pay s V n <->
+  (exists j mv,
+    justification_view (E := unit) true j = Ok mv /\ vnum mv = V /\
+    justification_verify (p_g P) (p_e P) (p_C P) j = Ok tt /\
+    get_implied_block (E := unit) true (p_C P) (p_first P) j = Ok (n, None) /\
+    In {| m_key := cleader (pcfg P 0) V; m_sig_ok := true; m_msg := MProposal (Some (pay n)) j |} (g_soup s) /\
+    (forall m p' j' mv', In m (g_soup s) -> m_msg m = MProposal p' j' -> m_key m = cleader (pcfg P 0) V ->
+       m_sig_ok m = true -> justification_view (E := unit) true j' = Ok mv' -> vnum mv' = V ->
+       justification_verify (p_g P) (p_e P) (p_C P) j' = Ok tt ->
+       p' = Some (pay n) /\ j' = j)).
+Proof. exact (fun P pay s V n => iff_refl _). Qed.
+Print Assumptions C06G_proposal_on_network_unfold.
+
+(* consecutive views with honest leaders, from such a view: the honest nodes stay in lockstep
+   and store one block every two rounds (r blocks in 2r rounds).  After a committed view the
+   next leader's proposal is on the network by itself (the leader is notified when it forms the
+   commit certificate and proposes in the same round), so only the first view needs the
+   hypothesis. *)
+Theorem C06G_progress_honest_leaders : forall P pay fetch (r : nat), params_ok P -> env_ok P pay ->
+  forall s V n, preach P s -> headroom P s (Z.of_nat r + 2) -> 0 < V -> waiting P s V n ->
+  proposal_on_network P pay s V n ->
+  (forall i, (1 <= i < r)%nat -> honestb P (cleader (pcfg P 0) (V + Z.of_nat i)) = true) ->
+  forall k, honestb P k = true ->
+    up (sync_rounds P pay fetch (2 * r) s) k /\
+    hview (sync_rounds P pay fetch (2 * r) s) k = V + Z.of_nat r /\
+    height s k + Z.of_nat r <= height (sync_rounds P pay fetch (2 * r) s) k.
+Proof. exact progress_honest_leaders_holds. Qed.
+Print Assumptions C06G_progress_honest_leaders.
+
+(* ingredients of (d) *)
+(* through Layers A and B: a verifying commit certificate without forged signatures is for a
+   view below V when every honest node's durable position is below (V, Commit); likewise for
+   timeout certificates and (V, Timeout) *)
+Theorem C06G_no_commit_cert_yet : forall P, params_ok P -> forall s q V,
+  preach P s ->
+  (forall k, honestb P k = true -> dview s k < V \/ (dview s k = V /\ dphase s k = Prepare)) ->
+  ProtocolRefinesStep.gq (pcfg P 0) (honestb P) (g_soup s) q -> vnum (cview (qmsg q)) < V.
+Proof. exact no_cqc_at. Qed.
+Print Assumptions C06G_no_commit_cert_yet.
+
+Theorem C06G_no_timeout_cert_yet : forall P, params_ok P -> forall s t V,
+  preach P s ->
+  (forall k, honestb P k = true -> dview s k < V \/ (dview s k = V /\ dphase s k <> PTimeout)) ->
+  tqc_verify (p_g P) (p_e P) (p_C P) t = Ok tt -> ProtocolRefinesStep.kt (honestb P) (g_soup s) t ->
+  vnum (tqview t) < V.
+Proof. exact no_tqc_at. Qed.
+Print Assumptions C06G_no_timeout_cert_yet.
+
+(* the latest commit view a running honest node has recorded for an honest validator is the
+   view of a vote that validator put on the network *)
+Theorem C06G_commit_views_provenance : forall P s, preach P s -> forall k, n_alive (g_node s k) = true ->
+  forall h v, honestb P h = true -> zmap_get (r_commit_views (n_live (g_node s k))) h = Some v ->
+  exists c, vnum (cview c) = v /\ In {| m_key := h; m_sig_ok := true; m_msg := MCommit c |} (g_soup s).
+Proof. exact preach_CV. Qed.
+Print Assumptions C06G_commit_views_provenance.
+
+(* the honest validators together weigh a quorum *)
+Theorem C06G_honest_bits_quorum : forall P, params_ok P -> forall bits,
+  length bits = length (p_C P) ->
+  (forall h i, honestb P h = true -> cindex (p_C P) h = Some i -> nth_error bits i = Some true) ->
+  quorum (p_C P) <= weight (cweights (p_C P)) bits.
+Proof. exact honest_bits_quorum. Qed.
+Print Assumptions C06G_honest_bits_quorum.
+
 (* ---- the block-fetch oracle and the environment assumption H-FETCH ---- *)
 (* every statement above holds for EVERY oracle [fetch] (what it returns is checked before it is
    used); the assumption below is needed only for the progress statements *)
@@ -352,6 +451,24 @@ Example C06G_example_fetch_recovery :
 Proof. exact ex_fetch_recovery. Qed.
 Print Assumptions C06G_example_fetch_recovery.
 
+(* the hypotheses of C06G_view_commits hold after the first round from the initial state:
+   everybody waits in view 1 and the proposal of its leader for block 0 is on the network *)
+Example C06G_example_view_commits :
+  preach ex_P ex_s1 /\ headroom ex_P ex_s1 4 /\ waiting ex_P ex_s1 1 0 /\
+  proposal_on_network ex_P ex_pay ex_s1 1 0.
+Proof. exact ex_view_commits_hyps. Qed.
+Print Assumptions C06G_example_view_commits.
+Example C06G_example_view_commits_state :
+  ex_s1 = sync_rounds ex_P ex_pay (find_cert ex_P) 1 (ginit ex_P).
+Proof. exact ex_s1_unfold. Qed.
+Print Assumptions C06G_example_view_commits_state.
+
+Example C06G_example_honest_leaders :
+  headroom ex_P ex_s1 (Z.of_nat 2 + 2) /\
+  (forall i, (1 <= i < 2)%nat -> honestb ex_P (cleader (pcfg ex_P 0) (1 + Z.of_nat i)) = true).
+Proof. exact (conj ex_headroom_s1 ex_honest_leaders). Qed.
+Print Assumptions C06G_example_honest_leaders.
+
 (* a silent Byzantine leader costs one view: 6 validators, validator 2 Byzantine *)
 Example C06G_example_byz_leader :
   params_ok ex_P6 /\
@@ -369,7 +486,8 @@ Print Assumptions C06G_example_byz_leader.
    C06G_no_stop = forall R, ProtocolLiveGoals.C06_no_stop R *)
 (* (c) alignment *)
 Definition C06_sync_rounds_align := ProtocolLiveGoals.C06_sync_rounds_align.
-(* (d) first statement: refuted above for R = 4; corrected statement with a notified leader *)
+(* (d): the first statement is refuted above for R = 4, its first correction (notified leader)
+   for R = 3; the statement that holds is C06G_view_commits above *)
 Definition C06_aligned_view_commits := ProtocolLiveGoals.C06_aligned_view_commits.
 Definition C06_aligned_view_commits' := ProtocolLiveGoals.C06_aligned_view_commits'.
 (* (e) and the full statement *)
